@@ -7,6 +7,7 @@ package main
 // FIFO wake-up order, how a block ends (timeout, CLIENT UNBLOCK, kill, close) and re-use.
 
 import (
+	"net"
 	"encoding/json"
 	"fmt"
 	"math/rand"
@@ -626,6 +627,79 @@ func scenStaleUnblock(g *rand.Rand) (string, []string, error) {
 	return w.verdict([]string{"k"}), w.log, nil
 }
 
+// C14: a flush empties the keys; it does not cut the connections that wait on them off. A client
+// blocked on a key of the flushed database is served by the next push to that key ("the effect is
+// the state every connected client reads and writes afterwards" holds for the waiting client too).
+func scenFlushBlocked(g *rand.Rand) (string, []string, error) {
+	w, err := newBWorld(3)
+	if err != nil {
+		return "", nil, err
+	}
+	defer w.close()
+	db := fmt.Sprint(g.Intn(4))
+	for _, c := range w.clients {
+		if r, err := c.conn.Do(2*time.Second, bs("SELECT", db)...); err != nil || r.Kind == '-' {
+			return "SELECT failed", w.log, nil
+		}
+	}
+	w.do("SELECT", db)
+	w.do("RPUSH", "other", "x")
+	cmd := [][]string{{"BLPOP", "q", "0"}, {"BRPOP", "q2", "q", "0"}, {"BLMOVE", "q", "dst", "LEFT", "RIGHT", "0"}, {"BLMPOP", "0", "1", "q", "LEFT"}}[g.Intn(4)]
+	w.block(0, []string{"q"}, cmd...)
+	w.block(1, []string{"q"}, "BLPOP", "q", "0")
+	if !w.waitQueuedDb(db, "q", 2) {
+		return "clients never registered", w.log, nil
+	}
+	flush := []string{"FLUSHDB"}
+	if g.Intn(2) == 0 {
+		flush = []string{"FLUSHALL"}
+	}
+	if g.Intn(3) == 0 {
+		// the flush comes from a connection in another database
+		w.do("SELECT", fmt.Sprint(9+g.Intn(4)))
+		flush = []string{"FLUSHALL"}
+	}
+	if _, err := w.do(flush...); err != nil {
+		return "flush got no reply", w.log, nil
+	}
+	w.do("SELECT", db)
+	if n, _ := w.do("DBSIZE"); n == nil || n.Int != 0 {
+		return "flush left keys behind", w.log, nil
+	}
+	if r, _ := w.poll(0, 150*time.Millisecond); r != nil {
+		return "the flush ended a blocked command: " + r.String(), w.log, nil
+	}
+	w.push("q", 2)
+	r0, _ := w.poll(0, 2*time.Second)
+	r1, _ := w.poll(1, 2*time.Second)
+	if r0 == nil || r1 == nil {
+		n, _ := w.do("LLEN", "q")
+		return fmt.Sprintf("after %v, two elements pushed to the key two clients were blocked on since before the flush reached %d of them (LLEN q = %v)", flush, map[bool]int{true: 1, false: 0}[r0 != nil]+map[bool]int{true: 1, false: 0}[r1 != nil], n), w.log, nil
+	}
+	// clients that block after the flush are served as well
+	w.block(2, []string{"q"}, "BRPOP", "q", "0")
+	w.push("q", 1)
+	if r, _ := w.poll(2, 2*time.Second); r == nil {
+		return "a client that blocked after the flush was not served", w.log, nil
+	}
+	return "", w.log, nil
+}
+
+// like waitQueued, for a database other than 0
+func (w *bworld) waitQueuedDb(db, key string, n int) bool {
+	for t := 0; t < 200; t++ {
+		line, err := w.srv.Ctl("DUMP 0 "+db, 2*time.Second)
+		if err == nil {
+			var d struct{ Waiters map[string]int }
+			if json.Unmarshal([]byte(line), &d) == nil && d.Waiters[key] >= n {
+				return true
+			}
+		}
+		time.Sleep(5 * time.Millisecond)
+	}
+	return false
+}
+
 // a killed (server side) or closed (client side) blocked client must stop competing for elements
 func scenDisconnect(g *rand.Rand, clientSide bool) (string, []string, error) {
 	w, err := newBWorld(2)
@@ -633,17 +707,40 @@ func scenDisconnect(g *rand.Rand, clientSide bool) (string, []string, error) {
 		return "", nil, err
 	}
 	defer w.close()
+	// the connection ends either while the command waits, or in the step before: registered in the
+	// wait table, not yet waiting (held at the schedule point before the capture)
+	early := g.Intn(2) == 0
+	if early {
+		w.srv.Ctl("PARK block.beforecapture "+w.clients[0].id, time.Second)
+	}
 	w.block(0, []string{"k"}, "BLPOP", "k", "0")
 	if !w.waitQueued("k", 1) {
 		return "client never registered", w.log, nil
 	}
+	if early {
+		if !w.waitParked("block.beforecapture", w.clients[0].id) {
+			return "client never reached the point before its wait", w.log, nil
+		}
+		w.logf("c0 is held between registration and waiting")
+		defer w.srv.Ctl("RELEASE all", time.Second)
+	}
 	if clientSide {
+		if tc, ok := w.clients[0].conn.c.(*net.TCPConn); ok && g.Intn(2) == 0 {
+			// an abortive close: the server's read ends with "connection reset", not with end-of-stream
+			tc.SetLinger(0)
+			w.logf("c0: connection reset by the client (SO_LINGER 0)")
+		} else {
+			w.logf("c0: socket closed by the client")
+		}
 		w.clients[0].conn.Close()
-		w.logf("c0: socket closed by the client")
 	} else {
 		w.do("CLIENT", "KILL", "ID", w.clients[0].id)
 	}
 	w.clients[0].pending = false
+	if early {
+		time.Sleep(30 * time.Millisecond)
+		w.srv.Ctl("RELEASE all", time.Second)
+	}
 	time.Sleep(120 * time.Millisecond)
 	w.push("k", 1)
 	time.Sleep(80 * time.Millisecond)
@@ -802,7 +899,10 @@ func init() {
 	streams["C12"] = runBlocking("C12",
 		[]func(g *rand.Rand) (string, []string, error){scenTimeouts, scenUnblock, scenStaleUnblock,
 			func(g *rand.Rand) (string, []string, error) { return scenDisconnect(g, false) },
+			func(g *rand.Rand) (string, []string, error) { return scenDisconnect(g, true) },
 			func(g *rand.Rand) (string, []string, error) { return scenDisconnect(g, true) }, scenTimeoutTie},
-		[]string{"timeouts", "unblock", "stale-unblock", "kill", "peer-close", "timeout-tie"}, 14, 300)
+		[]string{"timeouts", "unblock", "stale-unblock", "kill", "peer-close", "peer-close", "timeout-tie"}, 18, 300)
 	specialReplay["C12"] = true
+	streams["C14B"] = runBlocking("C14", []func(g *rand.Rand) (string, []string, error){scenFlushBlocked}, []string{"flush-while-blocked"}, 6, 120)
+	specialReplay["C14B"] = true
 }
